@@ -8,6 +8,7 @@ import (
 	"encoding/binary"
 	"fmt"
 	"io"
+	"math"
 	"sync"
 
 	"google.golang.org/grpc/encoding"
@@ -127,6 +128,10 @@ func (c CodecProto) ReadNext(b []byte, r io.Reader, limit int) ([]byte, int, err
 	size, n := protowire.ConsumeVarint(b)
 	if n < 0 {
 		return b, 0, protowire.ParseError(n)
+	}
+	if size > math.MaxInt32 {
+		// Protobuf messages are limited to 2GiB; larger sizes overflow int below.
+		return b, 0, &protodelim.SizeTooLargeError{Size: size, MaxSize: math.MaxInt32}
 	}
 	if limit > 0 && int(size) > limit {
 		return b, 0, &protodelim.SizeTooLargeError{Size: size, MaxSize: uint64(limit)}
